@@ -29,7 +29,7 @@ def prop_of(sig):
                                "error-does-not-return", "ok-value-never-received")): return "C01"
     if any(k in tail for k in ("closed-handle", "second-close-ok", "accepted-after-all-receivers-gone",
                                "value-after-disconnected", "not-disconnected-after-disconnected",
-                               "disconnected-before-drain", "empty-after-all-senders-gone")): return "C04"
+                               "disconnected-before-drain", "empty-after-all-senders-gone", "disconnected-while-sender-alive")): return "C04"
     return "?"
 
 # (id, property, regex, witness file, what): the open channel findings are listed in /verif/known_findings.json
@@ -111,9 +111,20 @@ def standard_run(ctx, module, theorems, witnesses, quick_n=(3000, 3000), thoroug
     na = async_n[0] if ctx.quick else async_n[1]
     if na:
         liveness_tie(ctx, "async-futures", [h, "gen", "--seed", str(ctx.seed), "--cases", str(na), "--mode", "async", "--tier", ctx.tier], drv)
+    race_pairs_tie(ctx, h, drv)
     if extra:
         extra(ctx, h, drv)
     return h, drv
+
+def race_pairs_tie(ctx, h, drv):
+    """`chanh races` (chanx D / E): every admin op (clone / close / drop / to_async / to_sync) of either side in one thread
+    against every data / probe op of the other side — of the same side on a clone — and of the SAME handle shared by both
+    threads — in a second thread; tiny programs explored best-first (fewest preemptions first) with preemption bound 2 and
+    a run budget per program. Quick tier: the core pairs (try-form of the other side at the empty / full boundary, try-form
+    on a clone, every shared-handle program) and a sample of the others chosen by seed; thorough: every program. The runs
+    are ordinary concurrent histories: monitors + linearizability (+ quiescence rule), judged under the checked property."""
+    return liveness_tie(ctx, "race-pairs-dfs", [h, "races", "--seed", str(ctx.seed), "--tier", ctx.tier], drv)
+
 
 def names(prop):
     return [l.strip() for l in open(os.path.join(VERIF, "props", prop + ".theorems")) if l.strip() and not l.startswith("#")]
